@@ -96,9 +96,9 @@ def run(ctx, prog, res):
     sub = lib.Result("C13")
     c07.run(ctx, prog, sub)  # MIR rules only (C07 has no witnesses)
     for v in sub.violations:
-        if v["rule"] in ("C07.R5", "C07.R6", "C07.R8"):
+        if v["rule"] in ("C07.R5", "C07.R6", "C07.R8", "C07.R9"):
             r4.fail(v["key"].replace("C07.", "C13.R4:"), v["message"], v["where"])
-    for rid in ("C07.R5", "C07.R6", "C07.R8"):
+    for rid in ("C07.R5", "C07.R6", "C07.R8", "C07.R9"):
         rr = sub.rules.get(rid)
         if rr:
             for inst in rr["instances"]:
@@ -131,5 +131,27 @@ def run(ctx, prog, res):
             fed = any(re.search(r"::next\(.*p1\.rules", flow.shape(nfn, a, depth=8)) for s in sets for a in s["args"])
             r5.check(fed, {"taken_rule_is_paved": True}, "C13.R5:taken-not-paved", "a rule is taken from the queue in normalize and never reaches Paving::set: it disappears from the output", lib.where_of(nfn, t))
         r5.check(len(taken) >= 1 and len(sets) >= 1, {"queue_next_calls": len(taken), "paving_set_calls": len(sets)}, "C13.R5:ANCHOR", "ANCHOR: normalize no longer takes rules from a queue into Paving::set")
+    # (c) a rule that passes through is emitted as it is: no field of a RuleSequence is assigned and no
+    #     mutable access to an element of a container of rules is taken
+    MUT = re.compile(r"^(first_mut|last_mut|iter_mut|get_mut|index_mut|as_mut_slice|as_mut|split_first_mut|split_last_mut|peek_mut|next_if|for_each|swap|make_mut|get_many_mut)$")
+    n_store = 0
+    for fid in stream_fns:
+        fn = prog.fns[fid]
+        for bb, b in fn.live_blocks():
+            for st in b["stmts"]:
+                if st["k"] != "assign":
+                    continue
+                fields = [q for q in st["dst"]["p"] if isinstance(q, dict) and "f" in q and str(q.get("adt", "")).endswith("rules::RuleSequence")]
+                n_store += 1
+                r5.check(not fields, {"fn": fid.split("::")[-1], "stores_into_rule_fields": 0} if not fields else {}, "C13.R5:store:%s:%s" % (fn.module, fields[0]["n"] if fields else ""),
+                         "%s assigns the field `%s` of a rule: a rule that normalization could not express is no longer passed through unchanged, and a second pass reads a different expression" % (fid, fields[0]["n"] if fields else ""), lib.where_of(fn, st)) if fields else None
+        for bb, t in fn.calls():
+            cal = t.get("callee") or {}
+            st = " ".join([cal.get("self_ty") or ""] + (cal.get("inputs") or []) + [cal.get("output") or ""])
+            if "RuleSequence" in st and MUT.match(cal.get("name") or "") and "&mut" in (cal.get("output") or "") + " ".join(cal.get("inputs") or []):
+                if (cal.get("name") or "") == "next_if" or "Peekable" in st:
+                    continue
+                r5.fail("C13.R5:mut:%s:%s" % (fn.module, cal.get("name")), "%s takes mutable access to a rule of the stream (`%s`): rules are built by canonical_to_seq or passed through unchanged" % (fid, cal.get("name")), lib.where_of(fn, t))
+    r5.ok({"assignments_scanned": n_store, "stores_into_rule_fields": 0})
     r5.ok({"stream_operations_classified": n_stream})
     r5.floor(4)
